@@ -954,7 +954,10 @@ func (e *factEngine) paramFacts(prm *ssa.Parameter, depth int) factSet {
 	}
 	fn := prm.Parent()
 	empty := factSet{}
-	if fn == nil || e.inprog[prm] || depth > 4 {
+	// the result is memoised, so it must not depend on how deep the query
+	// that first asked for it was: nesting is bounded by the number of
+	// parameters in progress, not by the caller's depth
+	if fn == nil || e.inprog[prm] || len(e.inprog) > 5 {
 		return empty
 	}
 	if _, isEntry := e.entries[fn]; isEntry || e.escaped[fn] {
@@ -992,7 +995,7 @@ func (e *factEngine) paramFacts(prm *ssa.Parameter, depth int) factSet {
 		if _, isGo := site.(*ssa.Go); isGo {
 			// facts at the go statement still hold for the argument values
 		}
-		sf := e.at(args[idx], site, depth+1)
+		sf := e.at(args[idx], site, 0)
 		if acc == nil {
 			acc = sf
 		} else {
